@@ -24,7 +24,8 @@ RULE = ('one case = one session: a real sync or async client with a retry config
         'are replaced by recording shims: nothing really waits), and the object reaching the caller. Expected: '
         'vmon/models/retry.py. Distinct = distinct (configuration, request kind, strategy source, consumed script prefix).')
 ASSUMPTIONS = [
-    'jitter functions are constant (0, 0.25, -0.125): "jitter is drawn once per delay" is not distinguishable from other draw patterns',
+    'jitter functions are constant (0, 0.25, -0.125) or yield a fresh recognisable value per draw; for the latter every pause must be '
+    'cap(delay + j) for a draw j used by no other pause - the number and order of draws are left free',
     'a listed error code carried by an element inside a successful batch array is not an attempt outcome (not generated)',
     'a transport exception during a notification is not judged (the statement only says notifications return immediately)',
     'delays are compared with tolerance 1e-9',
@@ -43,7 +44,8 @@ FLOORS = {'*': {**{f'outcome:{o}:{p}': 10 for o in _OUT for p in ('first', 'midd
                 'family:periodic': 100, 'family:exponential': 100, 'family:fibonacci': 100, 'exhausted-strategy': 50,
                 'kind:notification': 30, 'kind:batch': 100, 'kind:single': 100, 'client:sync': 300, 'client:async': 300,
                 'source:client': 100, 'source:request': 100, 'source:request-none': 30, 'source:none': 30,
-                'cap-reached': 20, 'jitter:nonzero': 100, 'session:followup-requests': 100, 'sleeps-observed': 300}}
+                'cap-reached': 20, 'jitter:nonzero': 100, 'jitter:fresh-value-per-draw': 100,
+                'jitter:fresh:>=2-pauses-in-one-request': 20, 'session:followup-requests': 100, 'sleeps-observed': 300}}
 
 CODES = {'none': None, 'empty': set(), 'one': {2001}, 'several': {2001, 2002}}
 EXCS = {'none': None, 'empty': set(), 'one': {ConnectionError}, 'several': {ConnectionError, TimeoutError}}
@@ -76,9 +78,18 @@ def setup(ctx):
     _time.sleep = lambda d: EVENTS.append(('sleep', d, 'global-time'))
 
 
+DRAWS = []
+
+
 def make_backoff(spec):
     j = spec.get('jitter', 0.0)
     jitter = (lambda: j)
+    if j == 'fresh':
+        # a jitter source as in the documentation (random): every draw is a fresh, recognisable value
+        def jitter():
+            v = 0.003 + 0.007 * len(DRAWS) + 0.0001 * (len(DRAWS) % 3)
+            DRAWS.append(v)
+            return v
     if spec['family'] == 'periodic':
         return retry_mod.PeriodicBackoff(attempts=spec['attempts'], jitter=jitter, interval=spec['interval'])
     if spec['family'] == 'exponential':
@@ -159,7 +170,12 @@ def run_session(ctx, spec, codes, excs, is_async, requests):
 
     cls_ = clientside.AsyncClient if is_async else clientside.SyncClient
     client = cls_(transport, retry_strategy=client_wide)
-    delays_full = model.backoff_delays(spec)
+    fresh_jitter = spec.get('jitter') == 'fresh'
+    delays_full = model.backoff_delays(dict(spec, jitter=0.0) if fresh_jitter else spec)
+    del DRAWS[:]
+    used_draws = set()
+    if fresh_jitter:
+        ctx.hit('jitter:fresh-value-per-draw')
     ctx.hit('client:' + ck)
     ctx.hit('family:' + spec['family'])
     if spec.get('jitter'):
@@ -231,6 +247,15 @@ def run_session(ctx, spec, codes, excs, is_async, requests):
             ctx.violation('pause-at-wrong-position', fam, cls, **wit)
             continue
         bad = [(a, b) for a, b in zip(sleeps_o, sleeps_w) if not isinstance(a, (int, float)) or abs(a - b) > 1e-9]
+        if fresh_jitter:
+            bad = []
+            if any(not isinstance(a, (int, float)) for a in sleeps_o) or not model.pauses_explained_by_draws(
+                    sleeps_o, model.raw_delays(spec), spec.get('max_value'), list(DRAWS), used_draws):
+                ctx.violation(f"pause-is-not-delay-plus-a-fresh-jitter-draw:{spec['family']}", fam, cls, jitter_draws=list(DRAWS),
+                              raw_delays=model.raw_delays(spec), **wit)
+                continue
+            if len(sleeps_o) >= 2:
+                ctx.hit('jitter:fresh:>=2-pauses-in-one-request')
         if bad:
             ctx.violation(f"pause-duration-differs:{spec['family']}", fam, cls, differing=bad, **wit)
             continue
@@ -272,7 +297,7 @@ def run_session(ctx, spec, codes, excs, is_async, requests):
 # ---- generation -----------------------------------------------------------------------------------------
 
 def backoff_grid(n):
-    js = [0.0, 0.25, -0.125]
+    js = [0.0, 0.25, -0.125, 'fresh']
     out = []
     for j in js:
         out.append({'family': 'periodic', 'attempts': n, 'interval': 1.5, 'jitter': j})
